@@ -243,10 +243,13 @@ def gen_case(seed, tier, prop="C11"):
                 prog.append([rng.choice(["bad_notify", "bad_wait", "bad_notify_all"])])
         tasks.append(prog)
     ext = []
+    native = rng.random() < 0.3      # this case also cancels whole tasks natively (asyncio Task.cancel())
     for _ in range(rng.randint(0, 5)):
         t = rng.choice([0, 0.125, 0.125, 0.25, 0.25, 0.375, 0.5, 0.75, 1.0])
         if nev and rng.random() < 0.2:
             ext.append([t, "eset", rng.randrange(nev)])
+        elif native and rng.random() < 0.4:
+            ext.append([t, "ncancel", rng.randrange(nw)])
         elif nsid[0]:
             ext.append([t, "cancel", rng.randrange(nsid[0])])
     ext.sort(key=lambda e: e[0])
@@ -274,6 +277,8 @@ class CondRun:
         self.model = None
         self.nontrivial = False
         self.eset_at = {}        # ev -> (seq, iteration)
+        self.task_obj = {}
+        self.ncancelled = set()
         self.done = 0
 
     def v(self, rule, detail, sig=None):
@@ -315,6 +320,8 @@ class CondRun:
         for t, what, arg in case["ext"]:
             if what == "cancel":
                 loop.call_external_at(t, self.do_cancel, "ext", arg)
+            elif what == "ncancel":
+                loop.call_external_at(t, self.do_ncancel, "ext", arg)
             else:
                 loop.call_external_at(t, self.do_eset, "ext", arg)
         self.ntasks = len(case["tasks"])
@@ -374,6 +381,33 @@ class CondRun:
             self.faults["cancel_event_waiter"] += 1
         self.observe("after cancel")
 
+    def do_ncancel(self, by, tid):
+        """Native asyncio cancellation of a whole waiter task.  Not generated for a waiter that may already have been
+        notified: its wait() is then re-acquiring the lock, which no shield can protect from a native cancellation
+        (outside the statement)."""
+        t = self.task_obj.get(tid)
+        if t is None or t.done() or tid in self.ncancelled:
+            return
+        who = self.in_wait.get(tid)
+        if who is not None and any(e[0] == who and e[2] for w in self.model.worlds for e in w.queue):
+            return
+        if who is not None and (self.model.pending.get(who) or any(who in w.passed for w in self.model.worlds)):
+            return          # a scope cancellation is already pending: wait() may be in its shielded re-acquisition too
+        self.observe("before native cancel")
+        self.ncancelled.add(tid)
+        self.h.rec("native_cancel", by, tid)
+        t.cancel()
+        if who is not None:
+            self.model.cancel_request(who)
+            self.faults["native_cancel_waiter"] += 1
+            self.nontrivial = True
+        elif tid in self.in_ewait:
+            self.in_ewait[tid][2] = True
+            self.faults["native_cancel_event_waiter"] += 1
+        else:
+            self.faults["native_cancel_other"] += 1
+        self.observe("after native cancel")
+
     def do_eset(self, by, i):
         ev = self.events[i]
         if i not in self.eset_at:
@@ -387,6 +421,7 @@ class CondRun:
             self.v("event_unset", f"event {i} reports is_set()=False right after set()")
 
     async def task(self, tid, prog):
+        self.task_obj[tid] = asyncio.current_task()
         try:
             for st in prog:
                 op = st[0]
@@ -404,6 +439,9 @@ class CondRun:
                     await self.do_bad(tid, op)
                 elif op == "with":
                     await self.do_with(tid, st[1])
+        except asyncio.CancelledError:
+            if tid not in self.ncancelled:       # a native cancellation ends this task only (see engines/permits.py)
+                raise
         finally:
             self.done += 1
 
